@@ -14,6 +14,7 @@ import ActsModel.Driver.Ref
 import ActsModel.Driver.Hier
 import ActsModel.Driver.Catch
 import ActsModel.Driver.Stream
+import ActsModel.Driver.Generate
 open Lean Acts.Driver
 
 def dispatch (req : Lean.Json) : Lean.Json :=
@@ -36,6 +37,9 @@ def dispatch (req : Lean.Json) : Lean.Json :=
   | "c03.monitor" => hierCase req
   | "c06.bubble" => bubbleCase req
   | "c08.monitor" => streamCase req
+  | "c16.expand" => expandCase req
+  | "c16.fires" => firesCase req
+  | "c15.actend" => actEndCase req
   | "ping" => Lean.Json.mkObj [("pong", Lean.Json.bool true)]
   | c => Lean.Json.mkObj [("error", Lean.Json.str s!"unknown cmd {c}")]
 
